@@ -199,8 +199,13 @@ let cmd_mux (toks : string list) : string =
   | md :: base :: major :: minor :: ts :: brands :: ops ->
     let cfg = { mc_major_brand = n_of_hex major; mc_minor_version = n_of_hex minor;
                 mc_compatible_brands = nlist brands; mc_timescale = n_of_hex ts } in
-    let r = run_mux (mode_of md) (n_of_hex base) cfg (parse_ops ops) in
-    jres (fun (cls, f) ->
+    let ops' = parse_ops ops in
+    let full = (match mux_bytes (mode_of md) (n_of_hex base) cfg ops' with
+        | Ok (_, b) -> "{\"r\":\"ok\",\"bytes\":" ^ jbytes b ^ "}"
+        | Err _ -> "{\"r\":\"err\"}" | Panic s -> "{\"r\":\"panic\",\"site\":\"" ^ ocaml_string s ^ "\"}" | OutOfFuel -> "{\"r\":\"oof\"}") in
+    let r = run_mux (mode_of md) (n_of_hex base) cfg ops' in
+    let with_full s = if String.length s > 0 && s.[String.length s - 1] = '}' then String.sub s 0 (String.length s - 1) ^ ",\"full\":" ^ full ^ "}" else s in
+    with_full @@ jres (fun (cls, f) ->
         "{\"st\":" ^ jl jclass cls ^ ",\"out\":" ^ jbytes f.mf_out ^ ",\"mdat_pos\":" ^ jn f.mf_mdat_pos
         ^ ",\"mdat_size\":" ^ jn f.mf_mdat_size
         ^ ",\"mvhd\":[" ^ jn f.mf_mvhd_timescale ^ "," ^ jn f.mf_mvhd_duration ^ "," ^ jn f.mf_mvhd_version ^ "]"
